@@ -77,6 +77,8 @@ def family():
         if q and not ("@0+" in label and label.endswith("first-None") and "@2/first" not in label):
             continue
         yield label, prog, dict(kind="pairs")
+    for label, prog, meta in F.fam_indirect_goals():
+        yield label, prog, dict(kind="indirect")
     for label, prog, meta in F.fam_selfbids():
         yield label, prog, dict(kind="single", horizon=10)
     for label, prog, meta in F.fam_markers():
@@ -120,6 +122,10 @@ def on_prog(p, idx, label, prog, meta):
         runner.explore_and_check(p, idx, label, prog, cmp=cmp, watch=("v", "c", "w", "s", "t", "g.x", "g.y"), canon_paths={"v", "c", "s", "t", "g.x"},
                                  value_caps={"c": 4, "s": 5},
                                  depth=8 if core.TIER == "quick" else 10, sample_every=1999)
+        return
+    if kind == "indirect":
+        runner.explore_and_check(p, idx, label, prog, cmp=cmp, alphabet=F.G_ALPHABET, back_alphabet=[None, {"g.x": 1}, {"g.x": 2}],
+                                 watch=("v", "g.x"), depth=6, sample_every=1999)
         return
     if kind == "markers-deep":
         runner.explore_and_check(p, idx, label, prog, cmp=cmp, alphabet=F.XE_ALPHABET, back_alphabet=[None, {"x": 1}],
